@@ -217,7 +217,9 @@ def d2_core_threshold(F, r):
     fn = F.fns[cc]
     mp = [int(k) for k, v in fn["names"].items() if v == "min_points" and int(k) <= fn["argc"]]
     if not mp:
-        raise AnchorError("create_clusters: no `min_points` parameter")
+        mp = [i for i in range(1, fn["argc"] + 1) if fn["locals"][i] == "usize"]            # renamed: the threshold is the only usize parameter
+    if len(mp) != 1:
+        raise AnchorError("create_clusters: the minimum-neighbours parameter (the only usize parameter) was not found")
     mp = mp[0]
     cmps = []
     for bi, si, st in mir.stmts(fn):
